@@ -1,6 +1,7 @@
 package main
 
 import (
+	"unicode/utf8"
 	"encoding/base64"
 	"encoding/json"
 	"fmt"
@@ -348,10 +349,17 @@ func runC03(c *mon.Ctx) {
 				u, err := impl.NewEventFromUntrustedJSON(j)
 				check("untrusted", u, err)
 				if vr.Chance(0.15) {
-					// the proto-event's unsigned is caller-supplied raw JSON as well: with a repeated member name in it, Build
-					// refuses, or builds something that re-parses
+					// the proto-event's unsigned is caller-supplied raw JSON as well: with a repeated member name in it - or a
+					// byte that is not UTF-8, there or in the content - Build refuses, or builds something that re-parses
 					ps3 := ps
-					ps3.Unsigned = []byte(gen.Pick(vr, []string{`{"age":1,"age":2}`, `{"a":{"b":1,"b":2}}`, `{"prev_content":{"x":1},"prev_content":{"x":2}}`}))
+					switch vr.Intn(5) {
+					case 0:
+						ps3.Unsigned = []byte("{\"transaction_id\":\"\xff\"}")
+					case 1:
+						ps3.Content = []byte("{\"body\":\"a\xffb\",\"bo\xc3dy\":1}")
+					default:
+						ps3.Unsigned = []byte(gen.Pick(vr, []string{`{"age":1,"age":2}`, `{"a":{"b":1,"b":2}}`, `{"prev_content":{"x":1},"prev_content":{"x":2}}`}))
+					}
 					var ev3 gmsl.PDU
 					var err3 error
 					site, msg, pan := mon.Guard(func() { ev3, err3 = buildEvent(ver, ps3, id, baseTime) })
@@ -360,7 +368,11 @@ func runC03(c *mon.Ctx) {
 						c.Failf("build:panic:"+site, "Build panics on a proto-event whose unsigned repeats a member: %s", msg)
 					} else if err3 == nil {
 						if u3, perr := impl.NewEventFromUntrustedJSON(ev3.JSON()); perr != nil {
-							c.Failf("roundtrip:untrusted:error:proto-unsigned-repeats-a-member", "Build(v%s) accepts a proto-event with unsigned %s, and the event it builds is refused as untrusted input: %v", ver, ps3.Unsigned, perr)
+							sig := "roundtrip:untrusted:error:proto-unsigned-repeats-a-member"
+							if !utf8.Valid(ps3.Unsigned) || !utf8.Valid(ps3.Content) {
+								sig = "roundtrip:untrusted:error:proto-not-utf8"
+							}
+							c.Failf(sig, "Build(v%s) accepts a proto-event with unsigned %q / content %q, and the event it builds is refused as untrusted input: %v", ver, ps3.Unsigned, ps3.Content, perr)
 						} else if u3.EventID() != ev3.EventID() {
 							c.Failf("roundtrip:untrusted:event_id", "event built with unsigned %s re-parses under another ID", ps3.Unsigned)
 						}
